@@ -2,6 +2,7 @@ package gen
 
 import (
 	"fmt"
+	"regexp"
 	"strings"
 
 	"pgregory.net/rapid"
@@ -180,7 +181,11 @@ func NPMUniverse(o NPMOpts) *rapid.Generator[Universe] {
 							if rapid.Bool().Draw(t, "aimalias") {
 								r.Req = aimed(ti)
 							}
-							r.Type = "KnownAs " + rapid.SampledFrom([]string{"al1", "al2", "al3"}).Draw(t, "alias")
+							// The alias name is unique to the declaring version: the same
+							// alias at two places of a dependency cycle (which may close
+							// through plain, backward requirements) is what triggers the
+							// non-termination.
+							r.Type = fmt.Sprintf("KnownAs al%dv%d%s", i, len(p.Versions), rapid.SampledFrom([]string{"", "b"}).Draw(t, "alias"))
 						}
 					}
 					// package.json sections are maps keyed by the dependency name
@@ -492,9 +497,17 @@ func inheritReqs(t *rapid.T, p *UPkg) {
 				reqs[k].Req = own[0].Req
 			}
 		}
+		// alias names stay unique to the declaring version (see NPMUniverse)
+		for k := range reqs {
+			if i := strings.Index(reqs[k].Type, "KnownAs al"); i >= 0 {
+				reqs[k].Type = aliasVersionRE.ReplaceAllString(reqs[k].Type, fmt.Sprintf("${1}v%d", j))
+			}
+		}
 		p.Versions[j].Reqs = reqs
 	}
 }
+
+var aliasVersionRE = regexp.MustCompile(`(KnownAs al[0-9]+)v[0-9]+`)
 
 func PyPIUniverse() *rapid.Generator[Universe] {
 	return rapid.Custom(func(t *rapid.T) Universe {
